@@ -502,6 +502,30 @@ def mutators(rng):
         m.fill_holes()
 
     add("hole+fill_holes", hole_fill)
+
+    def hole_fill_at(frac, pair=False):
+        def f(m, r):
+            n = len(m.faces)
+            i = min(n - 1, int(frac * n))
+            keep = np.ones(n, dtype=bool)
+            keep[i] = False
+            if pair:
+                # also drop a neighbour across an edge: a quad hole
+                adj = np.asarray(m.face_adjacency)
+                nb = [b if a == i else a for a, b in adj if i in (a, b)]
+                if nb:
+                    keep[nb[0]] = False
+            m.update_faces(keep)
+            m.fill_holes()
+
+        return f
+
+    # whether the patch face gets reversed by the winding loop depends on where the boundary
+    # cycle starts: several fixed positions so that both outcomes occur in every run
+    for frac in (0.05, 0.3, 0.55, 0.8, 0.97):
+        add("hole@%.2f+fill_holes" % frac, hole_fill_at(frac))
+    for frac in (0.2, 0.7):
+        add("quadhole@%.2f+fill_holes" % frac, hole_fill_at(frac, pair=True))
     add("density_set", lambda m, r: setattr(m, "density", 2.75))
     add("center_mass_set", lambda m, r: setattr(m, "center_mass", [0.1, 0.2, 0.3]))
 
